@@ -4,7 +4,8 @@ C12 — property theorems: reading is total and inverse to writing.
 Model: `Lex.lean` / `Parse.lean` / `Write.lean` (Steel's lexer, the datum parser `(read)` uses, the
 writer `(write)` uses), tied to /repo on every run by the differential check.
 
-  * `read_total`, `spans_in_bounds`  — see `PropsSpan` section below;
+  * `read_total`, `spans_in_bounds`, `tokens_in_order` — the reader is total and every token /
+                                       error span satisfies start ≤ end ≤ utf8Len src;
   * `ReadWrite`                      — the full statement of the property (all representable data);
   * `read_write_partial`             — `ReadWrite` restricted to the decidable class `WFD`
                                        (`Model.lean`), proved by induction over ALL such data: any
@@ -13,9 +14,42 @@ writer `(write)` uses), tied to /repo on every run by the differential check.
                                        + symbols, + lists/vectors/byte vectors, + pairs/quote forms);
   * `not_ReadWrite` and the `counter_*` theorems — the full statement is false for the code that
     exists; each witness is replayed on the real reader/writer (open findings K12a–K12d).
+
+Not proved (checked on the real code by the differential run only): that span ends fall on
+character boundaries; that the fuel of the model is never exhausted (`outOfFuel` never shows up in
+the correspondence); inexact numbers; the program-level printer (`parse ∘ pretty`).
 -/
 import SteelVerif.C12.LemmasTop
+import SteelVerif.C12.LemmasTotal
 namespace SteelVerif.C12
+
+/-! ## reading is total, and every reported location lies inside the text -/
+
+/-- `lex_total` / `spans_in_bounds`: the lexer is a total function (it is defined by structural
+    recursion), and every token and every lexer error of a text has `start ≤ end ≤ utf8Len src`
+    (byte offsets). -/
+theorem spans_in_bounds (src : Text) : ∀ it ∈ lex src, it.s ≤ it.e ∧ it.e ≤ utf8Len src :=
+  lex_spans src
+
+/-- tokens are reported in the order of their start offsets -/
+theorem tokens_in_order (src : Text) : TokSorted 0 (lex src) := lex_sorted src
+
+/-- `read_total`: on every text the reader returns data or an error (it is a total function), and
+    the error's span satisfies `start ≤ end ≤ utf8Len src`. -/
+theorem read_total (src : Text) :
+    (∃ ds, read src = .ok ds) ∨ (∃ e, read src = .error e ∧ e.s ≤ e.e ∧ e.e ≤ utf8Len src) := by
+  have h := readLoop_total (utf8Len src) ((lex src).length + 1) {} [] (lex src) 0 (lex_itemsOK src) (lex_sorted src)
+  unfold read
+  simp only
+  cases hr : readLoop ((lex src).length + 1) {} [] (lex src) with
+  | ok ds => exact Or.inl ⟨ds, rfl⟩
+  | error e =>
+    rw [hr] at h
+    exact Or.inr ⟨e, rfl, h.1, h.2⟩
+
+/-- non-vacuity: errors do occur, with a span that points into the text -/
+example : read t!"(1 . )" = .error ⟨.syntax .dotCdr, 3, 4⟩ := rfl
+example : read t!"\"ab" = .error ⟨.eof, 0, 3⟩ := rfl
 
 /-! ## the full statement -/
 
